@@ -27,7 +27,7 @@ type C16Case struct {
 	Opts   drv.Opts    `json:"opts"`
 	Faults []drv.Fault `json:"faults"`
 	Retry  bool        `json:"retry,omitempty"`  // a failed Put/PutMany is retried once
-	Cont   string      `json:"cont,omitempty"`   // after a failed finalize: "" stop, "refin" finalize again, "putfin" Put k then finalize again
+	Cont   string      `json:"cont,omitempty"`   // after a failed finalize: "" stop, "refin" finalize again, "putfin" Put k then finalize again; "reopen": resume the file with a fresh store
 	Fro    bool        `json:"fro,omitempty"`    // bs: FinalizeReadOnly (+ Close at the end) instead of Finalize
 	Pre    []string    `json:"pre,omitempty"`    // bs, st: blocks of a fault-free first generation; the faulted session RESUMES that file
 	PreFin bool        `json:"prefin,omitempty"` // the first generation was finalized
@@ -171,6 +171,60 @@ type c16Result struct {
 	fired    int      // number of the case's faults that were reached
 	contRan  bool     // the Cont continuation was executed
 	openFail bool
+}
+
+// c16Reopen: after a session whose later calls kept failing, the file is resumed by a fresh store, one more
+// block is put and the archive finalized. The resumption may be refused (outcome). If everything succeeds the
+// archive must be well-formed (every section hashing to its CID), hold every acknowledged block and the new one,
+// and nothing else except intact copies of blocks whose Put had reported the failure after writing them whole.
+func c16Reopen(x *kit.Ctx, cs C16Case, path string, roots []cid.Cid, okBlocks, absent []kit.Blk, fail func(sig, f string, a ...any)) {
+	f, err := os.OpenFile(path, os.O_RDWR, 0o644)
+	if err != nil {
+		return
+	}
+	defer f.Close()
+	x.Eval(1)
+	s, err := c06Open(cs.Front, f, roots, cs.Opts, true)
+	if err != nil {
+		x.Outcome("reopen-after-fault-refused")
+		return
+	}
+	defer s.Discard()
+	k := kit.B(c16Extra)
+	if err := s.Put(k); err != nil {
+		x.Outcome("reopen-after-fault-put-failed")
+		return
+	}
+	if err := s.Finalize(); err != nil {
+		x.Outcome("reopen-after-fault-finalize-failed")
+		return
+	}
+	x.Outcome("reopened-after-fault")
+	b, _ := os.ReadFile(path)
+	fl, err := refcar.DecodeFile(b, false)
+	if err != nil {
+		fail("reopen:malformed-archive", "after a failed write the file was resumed by a fresh store, one block put and the archive finalized, all without error: the archive is not well-formed: %v", err)
+		return
+	}
+	have := map[string]int{}
+	for _, sec := range fl.Payload.Sections {
+		have[string(sec.Cid)]++
+	}
+	for _, b := range append(append([]kit.Blk{}, okBlocks...), k) {
+		if b.Cid.Prefix().MhType == 0 && !cs.Opts.StoreID {
+			continue
+		}
+		if have[string(b.Raw)] == 0 {
+			fail("reopen:acked-block-lost", "block %s, whose Put had succeeded, is missing from the archive finalized after resuming", b.Name)
+		}
+		delete(have, string(b.Raw))
+	}
+	for _, b := range absent {
+		delete(have, string(b.Raw)) // written whole before the error was reported: intact (the decode verified it), tolerated
+	}
+	for c := range have {
+		fail("reopen:phantom-block", "the archive finalized after resuming holds a block that was never put: %x", c)
+	}
 }
 
 // c16Run executes the session under the given faults and applies the oracle (check = false:
@@ -620,6 +674,11 @@ func c16Run(x *kit.Ctx, cs C16Case, check bool) (res c16Result) {
 	}
 	if failAfter || lastFin != nil {
 		x.Outcome("sticky-or-finalize-failed")
+		if cs.Cont == "reopen" && (cs.Front == "bs" || cs.Front == "st") && w != nil {
+			// the caller carries on the other way: it gives the store up and resumes the file (no faults any more)
+			res.contRan = true
+			c16Reopen(x, cs, path, roots, okBlocks, append(append([]kit.Blk{}, absent...), maybe...), fail)
+		}
 		return // later calls keep failing: nothing is asserted about the archive
 	}
 	if faultSeen {
@@ -849,6 +908,9 @@ func genC16(tier string, emit func(any)) {
 			return fmt.Sprintf("%s%s:w%d", jb.tag, calls[k], ord)
 		}
 		conts := []string{"", "refin", "putfin"}
+		if jb.front == "bs" || jb.front == "st" {
+			conts = append(conts, "reopen")
+		}
 		shape := func(n, l int) string {
 			switch {
 			case n > 0 && n < l:
@@ -915,6 +977,7 @@ func init() {
 			"{blockstore.ReadWrite on a file (write seam), storage.NewReadableWritable on a file (write seam), storage.NewWritable / NewReadableWritable on an in-memory Writer+WriterAt (every write incl. the pragma), storage streaming CARv1, deferred writer for a stream, deferred writer for a PATH (write seam matched by file name) as CARv2, CARv1 and padded}; " +
 			"variants: one PutMany([a, L300, b]) call after Put c (blockstore); sessions that RESUME a fault-free file holding c, s (finalized CARv2, unfinalized CARv2, CARv1; blockstore and storage.OpenReadableWritable); FinalizeReadOnly + Close instead of Finalize (blockstore); the CARv2 pragma write of blockstore/storage on a file (fails because the file is read-only, seam writes swallowed, with a writable control). " +
 			"ONE transient fault at EVERY write call: plain error (n = 0, also on zero-length writes), short write of every length, and full write reported with an error (quick: n in {0,1,2,mid,len-2,len-1,len} for writes > 64 bytes); " +
+			"for the two file front ends additionally the continuation REOPEN: when the later calls keep failing the caller gives the store up and a fresh store resumes the file (no faults), puts one more block and finalizes; a refusal is an outcome, a success must give a well-formed archive (every section hashing to its CID) with every acknowledged block, the new one, and nothing else but intact blocks that were written whole before their Put reported the error; " +
 			"continuations: {carry on, retry the failed Put/PutMany once} x after a failed finalize {stop, finalize again, Put k then finalize again}; TWO faults: every single-fault case (quick: first fault n in {0,1,len}) is executed by the generator to learn which writes the (deterministic) implementation issues after the first fault - re-created deferred-path file, retried calls, continuations - and the second fault is put on each of them (quick: n in {0,1,len}; thorough: every length 0..len), so every pair is reachable. " +
 			"Oracle: the faulted Put/PutMany/Finalize/Close returns an error (a constructor that does not report its failed write is an outcome beyond-statement:fault-swallowed:open; the session goes on) and no call fails before the first fault; after every failed Put/PutMany and failed finalize each block whose Put failed is not reported as stored (Has not true, no Get/GetSize, no AllKeysChan entry, no live index record) and no acknowledged block is answered wrongly (Has not false, Get = its data if it answers, listed if AllKeysChan answers); ERRORS of these reads on the still open store are outcomes beyond-statement:{has,get,keys}-error-after-failed-write, not violations; blocks of a failed PutMany before the failing one - located by the BYTES the call wrote before the faulted write against the section sizes, skipping blocks the store already had - may be either but consistently; " +
 			"if every call after the last fault succeeds incl. the last finalize (and Close), the file strictly decodes (refcar; padding content is not judged) with the right version and roots, holds exactly the acknowledged blocks (incl. the resumed ones; compared as a multiset) and its index, if it has one (none: outcome beyond-statement:no-index), equals the records of its payload. A case is non-trivial when all its faults fired and its continuation ran (a single-fault case whose finalize did not fail has no continuation: outcome continuation-not-reached; a first fault that is not reached is reported as c16:harness:fault-not-reached)",
